@@ -31,11 +31,24 @@ def main(argv=None) -> int:
     args = ap.parse_args(argv)
     pid = args.pid.upper()
     t0 = time.time()
+    res = None
+    selftest = None
+    ctx = None
     try:
         mod = importlib.import_module("sa.props.%s" % pid.lower())
         ctx = report.Ctx(args.repo)
-        res = mod.run(ctx, args.tier)
-        selftest = None
+        try:
+            res = mod.run(ctx, args.tier)
+            if res.floor_errors and not res.findings:
+                raise AnalysisError("; ".join(res.floor_errors))
+        except AnalysisError as e:
+            # an anchor that vanished *after* violations were already established does not mask them
+            partial = report.CURRENT
+            if partial is not None and partial.pid == pid and partial.findings:
+                res = partial
+                res.analysed["analysis stopped early"] = str(e)
+            else:
+                raise
         if args.tier == "thorough" and not args.no_selftest:
             from sa.selftest import runner
             selftest = runner.run_for(pid)
